@@ -20,3 +20,11 @@ mk("C10-lookbehind-no-step-budget", "C10.bound", "lb_nested_plus", 22)
 mk("C10-neg-lookahead-no-step-budget", "C10.bound", "neg_la", 22)
 mk("C10-stack-overflow-escapes", "C10.class", "wide_alt", 26, step=100000, stack=8)
 mk("C10-stack-overflow-escapes-default-budgets", "C10.class", "la_star_star", 18, step=100000, stack=10000)
+
+# witness for the shared poll countdown fix: a timed quadratic lookbehind scan
+cell = {"family": "lb_scan_quadratic", "api": "test", "build": "literal", "n": 1500, "wrap": "none", "flags": ""}
+case = {"property": "C10", "seed": 0, "index": -1, "cell": cell, "knobs": {"step_limit": 100000, "stack_limit": 10000, "poll_interval": 100},
+        "world": {"tick": 1e-5, "epoch": 1000.0}, "T_work": 20000, "faults": []}
+case["src"] = c10.render(cell)
+doc = {"property": "C10", "clause": "C10.overrun", "signature": {"exact": sha1(c10.normalise(case)), "class": c10.features(case)}, "case": case}
+json.dump(doc, open(os.path.join(os.path.dirname(os.path.dirname(os.path.abspath(__file__))), "findings", "C10-short-matcher-runs-never-polled.json"), "w"), indent=1, sort_keys=True)
